@@ -32,6 +32,9 @@ theorem par_loops_end_in_collect : Gen.parLoops.all (fun c => c.getLast? == some
 
 theorem no_shared_mutable_state : Gen.sharedStateHits.all (fun h => benign.contains h) = true := by decide
 
+/-- all parallel code sits in the rayon-guarded statements above: there is no function that exists only with the feature -/
+theorem no_feature_only_items : Gen.featureOnlyItems = [] := by decide
+
 theorem loops_present : Gen.parLoops ≠ [] := by decide
 
 end MVoro.Obl
